@@ -12,11 +12,13 @@ pub mod c09;
 pub mod c10;
 pub mod c11;
 pub mod c12;
+pub mod c18;
 pub mod c19;
 pub mod c20;
 pub mod c23;
 pub mod c24;
 pub mod c26;
+pub mod c27;
 pub mod c28;
 pub mod c29;
 pub mod c31;
@@ -28,6 +30,7 @@ pub mod c36;
 pub mod c36_fmt;
 pub mod c36_model;
 pub mod c38;
+pub mod c40;
 pub mod dupseq;
 
 pub fn property(id: &str, ctx: &Ctx) -> Option<Property> {
@@ -44,6 +47,7 @@ pub fn property(id: &str, ctx: &Ctx) -> Option<Property> {
         "C10" => c10::property(ctx),
         "C11" => c11::property(ctx),
         "C12" => c12::property(ctx),
+        "C18" => c18::property(ctx),
         "C19" => c19::property(ctx),
         "C20" => c20::property_c20(ctx),
         "C21" => c20::property_c21(ctx),
@@ -52,6 +56,7 @@ pub fn property(id: &str, ctx: &Ctx) -> Option<Property> {
         "C24" => c24::property_c24(ctx),
         "C25" => c24::property_c25(ctx),
         "C26" => c26::property(ctx),
+        "C27" => c27::property(ctx),
         "C28" => c28::property(ctx),
         "C29" => c29::property_c29(ctx),
         "C30" => c29::property_c30(ctx),
@@ -62,8 +67,9 @@ pub fn property(id: &str, ctx: &Ctx) -> Option<Property> {
         "C35" => c35::property(ctx),
         "C36" => c36::property(ctx),
         "C38" => c38::property(ctx),
+        "C40" => c40::property(ctx),
         _ => return None,
     })
 }
 
-pub const ALL: &[&str] = &["C01", "C02", "C03", "C04", "C05", "C06", "C07", "C08", "C09", "C10", "C11", "C12", "C19", "C20", "C21", "C22", "C23", "C24", "C25", "C26", "C28", "C29", "C30", "C31", "C32", "C33", "C34", "C35", "C36", "C38"];
+pub const ALL: &[&str] = &["C01", "C02", "C03", "C04", "C05", "C06", "C07", "C08", "C09", "C10", "C11", "C12", "C18", "C19", "C20", "C21", "C22", "C23", "C24", "C25", "C26", "C27", "C28", "C29", "C30", "C31", "C32", "C33", "C34", "C35", "C36", "C38", "C40"];
